@@ -1,1 +1,301 @@
-fn main() { eprintln!("engine not built yet"); std::process::exit(2); }
+//! parsex — C21: documented and client-emitted commands parse as intended.
+//!
+//! Every command of a bounded enumeration of the documented grammar (and every near miss of it) is run
+//! through the real `<Cmd>::parser().skip(eof())` and through an independent reference recogniser of the
+//! documented grammar (`refp.rs`); the two must agree: both reject, or both accept with the same
+//! request.  The literal examples of the server's doc-comments and of README.md are parsed as well, and
+//! every public command builder of the Rust client is executed (against a recording fake server where
+//! it needs a connection) and its frames are parsed by the real server parser.
+mod client;
+mod gen_;
+mod real;
+mod refp;
+
+use std::collections::BTreeMap;
+
+use gen_::{Case, T};
+use real::FrameKind;
+use refp::{Cmd, Denot};
+use serde_json::{Value, json};
+use vcommon::{Ctx, Distinct, Samples};
+
+pub struct Stats {
+    pub evals: std::sync::atomic::AtomicU64,
+    pub accepted: std::sync::atomic::AtomicU64,
+    pub rejected: std::sync::atomic::AtomicU64,
+    pub per_cmd: std::sync::Mutex<BTreeMap<String, (u64, u64, u64)>>, // valid, invalid-values, near-misses
+    pub distinct: Distinct,
+    pub outcomes: Distinct,
+    pub samples: Samples,
+}
+
+fn show(toks: &[Vec<u8>]) -> Vec<String> {
+    toks.iter().map(|t| String::from_utf8_lossy(t).into_owned()).collect()
+}
+
+fn kw_shape(toks: &[T]) -> String {
+    let s: Vec<&str> = toks.iter().filter_map(|t| if let T::Kw(k) = t { Some(*k) } else { None }).collect();
+    if s.is_empty() { "-".into() } else { s.join("+") }
+}
+
+/// Compares the real parser with the reference on one token list.
+#[allow(clippy::too_many_arguments)]
+pub fn judge(ctx: &Ctx, st: &Stats, cmd: Cmd, toks: &[Vec<u8>], shape: &str, kind: FrameKind, origin: &str, expect_valid: Option<bool>) {
+    use std::sync::atomic::Ordering::Relaxed;
+    st.evals.fetch_add(1, Relaxed);
+    let reference = refp::parse(cmd, toks);
+    if let Err(e) = &reference {
+        if e.starts_with("UNSPECIFIED") {
+            return;
+        }
+    }
+    if let Some(v) = expect_valid {
+        if v != reference.is_ok() {
+            vcommon::machinery_fail(&format!(
+                "generator and reference disagree about validity of {} {:?} (generator says valid={v}, reference says {:?})",
+                cmd.name(),
+                show(toks),
+                reference
+            ));
+        }
+    }
+    let got: Result<Result<Denot, String>, String> = vcommon::catch(|| real::parse(cmd, toks, kind));
+    let mut h = vcommon::fnv(cmd.name().as_bytes());
+    for t in toks {
+        h = h.wrapping_mul(0x100000001b3) ^ vcommon::fnv(t);
+    }
+    st.distinct.add_hash(h);
+    let case = json!({"command": cmd.name(), "args": show(toks), "args_hex": toks.iter().map(|t| t.iter().map(|b| format!("{b:02x}")).collect::<String>()).collect::<Vec<_>>(),
+        "frame_kind": format!("{kind:?}"), "origin": origin});
+    match (&reference, &got) {
+        (_, Err(panic)) => ctx.violation(&format!("C21/{}/panic", cmd.name()), &format!("the parser panicked on {} {:?}: {panic}", cmd.name(), show(toks)), case),
+        (Ok(want), Ok(Ok(have))) => {
+            st.accepted.fetch_add(1, Relaxed);
+            st.outcomes.add(&format!("{have:?}"));
+            if want != have {
+                ctx.violation(
+                    &format!("C21/{}/misparsed/{origin}/{shape}", cmd.name()),
+                    &format!("{} {:?} parsed into {have:?}, the documented grammar denotes {want:?}", cmd.name(), show(toks)),
+                    case,
+                );
+            }
+        }
+        (Ok(want), Ok(Err(e))) => {
+            st.rejected.fetch_add(1, Relaxed);
+            ctx.violation(
+                &format!("C21/{}/valid-rejected/{origin}/{shape}", cmd.name()),
+                &format!("{} {:?} is a documented form (denoting {want:?}) but was rejected: {e}", cmd.name(), show(toks)),
+                case,
+            );
+        }
+        (Err(why), Ok(Ok(have))) => {
+            st.accepted.fetch_add(1, Relaxed);
+            let class: String = why.chars().map(|c| if c.is_ascii_alphanumeric() { c } else { '-' }).collect();
+            ctx.violation(
+                &format!("C21/{}/outside-grammar-accepted/{class}", cmd.name()),
+                &format!("{} {:?} is outside the documented grammar ({why}) but was accepted as {have:?}", cmd.name(), show(toks)),
+                case,
+            );
+        }
+        (Err(_), Ok(Err(_))) => {
+            st.rejected.fetch_add(1, Relaxed);
+        }
+    }
+}
+
+fn run_grammar(ctx: &Ctx, st: &Stats, thorough: bool) {
+    let items: Vec<Cmd> = Cmd::ALL.to_vec();
+    vcommon::par_for_each(&items, |_, &cmd| {
+        let (ok, bad) = gen_::commands(cmd, thorough);
+        let mut n_near = 0u64;
+        for (list, valid) in [(&ok, true), (&bad, false)] {
+            for toks in list {
+                for case in [Case::Upper, Case::Lower, Case::Mixed] {
+                    for kind in [FrameKind::Blob, FrameKind::Simple] {
+                        let r = gen_::render(toks, case);
+                        judge(ctx, st, cmd, &r, &kw_shape(toks), kind, if valid { "documented" } else { "invalid-value" }, Some(valid));
+                    }
+                }
+            }
+        }
+        st.samples.push(json!({"command": cmd.name(), "documented_form": ok.last().map(|t| show(&gen_::render(t, Case::Upper))), "invalid_value_form": bad.last().map(|t| show(&gen_::render(t, Case::Upper)))}));
+        let max_len = if thorough { 12 } else { 8 };
+        for base in ok.iter().filter(|b| b.len() <= max_len) {
+            for m in gen_::near_misses(cmd, base) {
+                n_near += 1;
+                let r = gen_::render(&m, Case::Upper);
+                judge(ctx, st, cmd, &r, &kw_shape(&m), FrameKind::Blob, "near-miss", None);
+                if thorough {
+                    let r = gen_::render(&m, Case::Lower);
+                    judge(ctx, st, cmd, &r, &kw_shape(&m), FrameKind::Simple, "near-miss", None);
+                }
+            }
+        }
+        for m in gen_::default_valued_duplicates(cmd) {
+            n_near += 1;
+            judge(ctx, st, cmd, &gen_::render(&m, Case::Upper), &kw_shape(&m), FrameKind::Blob, "near-miss", Some(false));
+        }
+        st.per_cmd.lock().unwrap().insert(cmd.name().to_string(), (ok.len() as u64, bad.len() as u64, n_near));
+    });
+}
+
+// ---------------------------------------------------------------------------------------------
+// documentation examples
+
+/// Splits a documentation example line into tokens (single quotes group, `#` starts a comment).
+fn tokenize(line: &str) -> Vec<String> {
+    let mut out = Vec::new();
+    let mut cur = String::new();
+    let mut in_q = false;
+    let mut has = false;
+    let mut chars = line.chars().peekable();
+    while let Some(c) = chars.next() {
+        if in_q {
+            if c == '\'' {
+                in_q = false;
+            } else {
+                cur.push(c);
+            }
+        } else if c == '\'' {
+            in_q = true;
+            has = true;
+        } else if c == '#' && !has && cur.is_empty() {
+            break;
+        } else if c.is_whitespace() {
+            if has || !cur.is_empty() {
+                out.push(std::mem::take(&mut cur));
+                has = false;
+            }
+        } else {
+            cur.push(c);
+        }
+    }
+    if has || !cur.is_empty() {
+        out.push(cur);
+    }
+    out
+}
+
+fn doc_examples() -> Vec<(String, String)> {
+    let mut files: Vec<String> = vec!["/repo/README.md".into()];
+    if let Ok(rd) = std::fs::read_dir("/repo/crates/sierradb-server/src/request") {
+        for e in rd.flatten() {
+            files.push(e.path().display().to_string());
+        }
+    }
+    files.sort();
+    let mut out = Vec::new();
+    for f in files {
+        let Ok(text) = std::fs::read_to_string(&f) else { continue };
+        for line in text.lines() {
+            let l = line.trim_start().trim_start_matches("///").trim();
+            let Some(first) = l.split_whitespace().next() else { continue };
+            if Cmd::ALL.iter().any(|c| c.name() == first) && !l.contains('<') && !l.contains("...") && !l.contains('`') {
+                out.push((f.clone(), l.to_string()));
+            }
+        }
+    }
+    out
+}
+
+fn run_docs(ctx: &Ctx, st: &Stats) -> (u64, Vec<Value>) {
+    let mut n = 0;
+    let mut listed = Vec::new();
+    for (file, line) in doc_examples() {
+        let toks = tokenize(&line);
+        let Some(cmd) = Cmd::from_name(&toks[0]) else { continue };
+        let mut args: Vec<Vec<u8>> = toks[1..].iter().map(|s| s.as_bytes().to_vec()).collect();
+        // the documentation uses placeholders such as `abc-def` or `pk1` where a UUID is meant
+        let mut substituted = false;
+        for i in 1..args.len() {
+            if args[i - 1].eq_ignore_ascii_case(b"PARTITION_KEY") && refp::parse_uuid(&args[i]).is_none() {
+                let u = uuid::Uuid::new_v5(&uuid::Uuid::NAMESPACE_OID, &args[i]);
+                args[i] = u.to_string().into_bytes();
+                substituted = true;
+            }
+        }
+        n += 1;
+        if listed.len() < 60 {
+            listed.push(json!({"file": file, "line": line, "placeholder_uuid_substituted": substituted}));
+        }
+        let shape: Vec<String> = args.iter().filter(|a| cmd.all_words().iter().any(|k| a.eq_ignore_ascii_case(k.as_bytes()))).map(|a| String::from_utf8_lossy(a).to_uppercase()).collect();
+        let shape = if shape.is_empty() { "-".to_string() } else { shape.join("+") };
+        judge(ctx, st, cmd, &args, &shape, FrameKind::Blob, "doc-example", Some(true));
+    }
+    (n, listed)
+}
+
+fn main() {
+    vcommon::install_quiet_panic_hook();
+    let args = vcommon::parse_args();
+    if args.property != "C21" {
+        vcommon::machinery_fail("parsex serves C21 only");
+    }
+    let mut ctx = Ctx::new("C21", args.tier, "exploration");
+    let st = Stats {
+        evals: Default::default(),
+        accepted: Default::default(),
+        rejected: Default::default(),
+        per_cmd: Default::default(),
+        distinct: Distinct::new(),
+        outcomes: Distinct::new(),
+        samples: Samples::new(16),
+    };
+    if let Some(path) = &args.replay {
+        ctx.replay_mode = true;
+        let case = vcommon::load_replay(path);
+        if case.get("client_call").is_some() {
+            client::run(&ctx, &st, Some(case["client_call"].as_str().unwrap_or("").to_string()));
+        } else {
+            let cmd = Cmd::from_name(case["command"].as_str().unwrap_or("")).unwrap_or_else(|| vcommon::machinery_fail("replay lacks command"));
+            let toks: Vec<Vec<u8>> = case["args_hex"]
+                .as_array()
+                .map(|a| a.iter().map(|h| { let h = h.as_str().unwrap_or(""); (0..h.len() / 2).map(|i| u8::from_str_radix(&h[2 * i..2 * i + 2], 16).unwrap_or(0)).collect() }).collect())
+                .unwrap_or_default();
+            let kind = if case["frame_kind"].as_str() == Some("Simple") { FrameKind::Simple } else { FrameKind::Blob };
+            let origin = case["origin"].as_str().unwrap_or("replay").to_string();
+            let shape: Vec<String> = toks.iter().filter(|a| cmd.all_words().iter().any(|k| a.eq_ignore_ascii_case(k.as_bytes()))).map(|a| String::from_utf8_lossy(a).to_uppercase()).collect();
+            let shape = if shape.is_empty() { "-".to_string() } else { shape.join("+") };
+            for _ in 0..2 {
+                judge(&ctx, &st, cmd, &toks, &shape, kind, &origin, None);
+            }
+            println!("replay: real parser says {:?}", vcommon::catch(|| real::parse(cmd, &toks, kind)));
+            println!("replay: reference says  {:?}", refp::parse(cmd, &toks));
+        }
+        ctx.finish(json!({"replay": path.display().to_string()}), vec![]);
+    }
+    let thorough = args.tier.is_thorough();
+    run_grammar(&ctx, &st, thorough);
+    let (n_docs, docs) = run_docs(&ctx, &st);
+    let client_info = client::run(&ctx, &st, None);
+    use std::sync::atomic::Ordering::Relaxed;
+    let per = st.per_cmd.lock().unwrap().clone();
+    let coverage = json!({
+        "evaluations": st.evals.load(Relaxed),
+        "distinct_nontrivial": st.distinct.len(),
+        "rule": "every (command, token list) pair produced by the bounded grammar enumeration, its case/frame-kind variants, its near misses, the documentation examples and the client builders; distinct = distinct (command, argument bytes); all are non-trivial in the sense that each is judged against the independent reference recogniser",
+        "exhaustive": true,
+        "samples": st.samples.take(),
+        "accepted_by_real_parser": st.accepted.load(Relaxed),
+        "rejected_by_real_parser": st.rejected.load(Relaxed),
+        "distinct_parsed_requests": st.outcomes.len(),
+        "per_command": per.iter().map(|(k, v)| json!({"command": k, "documented_forms": v.0, "invalid_value_forms": v.1, "near_misses": v.2})).collect::<Vec<_>>(),
+        "bounds": {
+            "repetition": "up to 3 streams / events / map entries per command",
+            "option_orders": if thorough { "every ordered selection of up to 4 distinct option clauses, plus all clauses in every rotation and its reverse" } else { "every ordered selection of up to 3 distinct option clauses, plus all clauses in every rotation and its reverse" },
+            "keyword_case": ["UPPER", "lower", "MiXeD"],
+            "frame_kinds": ["BlobString", "SimpleString"],
+            "near_miss_kinds": ["single-token deletion", "single-token duplication", "adjacent swap", "value replaced by each word of the command's grammar", "option clause repeated (same and different value, adjacent and at the end)", "option repeated after a default-valued first occurrence"],
+            "near_miss_base_length": if thorough { 12 } else { 8 },
+        },
+        "documentation_examples": {"count": n_docs, "lines": docs},
+        "client": client_info,
+    });
+    ctx.finish(
+        coverage,
+        vec![
+            "the reference recogniser (refp.rs) is the reading of the documented grammar; its conventions are listed at the top of that file".into(),
+            "value alphabets are boundary sets; forms the documentation leaves open (UUIDs without hyphens, numbers with a leading +, whitespace-padded values, map entries for a stream subscribed under two partition keys) are not generated".into(),
+        ],
+    )
+}
